@@ -2,7 +2,8 @@
      signal_layout.go  decodeStandardSignal / decodeEnumSignal
      signal_type.go    NewIntegerSignalType / NewDecimalSignalType (range computation)
      helpers.go        calcSizeFromValue / calcValueFromSize
-     signal_enum.go    AddValue / RemoveValue / setMaxIndex / SetMinSize / GetSize
+     signal_enum.go    AddValue / RemoveValue / RemoveAllValues / UpdateIndex (modifyValueIndex) /
+                       setMaxIndex / SetMinSize / GetSize
      mux_signal.go     GetGroupCountSize / GetSize
    One Gallina function per Go function.  Widths are part of the property, so the 64-bit wrap is
    written out: `u64` is a uint64 bit pattern, `s64` the int64 / int reading of it, `shl_*` the Go
@@ -144,19 +145,40 @@ Definition enum_set_min (e : enum) (m : Z) : enum := mkEnum (e_values e) (e_max 
 Definition enum_size (e : enum) : Z :=
   let c := calc_size (e_max e) in if e_min e >? c then e_min e else c.
 
-Inductive enum_op : Type := EAdd (nm idx : Z) | ERemove (nm : Z) | ESetMin (m : Z).
+(* SignalEnumValue.UpdateIndex on a value of the enum: same index = no-op; a used index is
+   refused; otherwise modifyValueIndex recomputes the maximum over the other values and the new
+   index *)
+Definition set_index (nm idx : Z) (p : Z * Z) : Z * Z := if fst p =? nm then (nm, idx) else p.
+Definition enum_update (e : enum) (nm idx : Z) : option enum :=
+  match find (fun p => fst p =? nm) (e_values e) with
+  | None => None
+  | Some (_, old) =>
+    if old =? idx then Some e
+    else if has_index (e_values e) idx then None
+    else let vs := map (set_index nm idx) (e_values e) in Some (mkEnum vs (max_of vs) (e_min e))
+  end.
+
+(* RemoveAllValues *)
+Definition enum_clear (e : enum) : enum := mkEnum [] 0 (e_min e).
+
+Inductive enum_op : Type :=
+  EAdd (nm idx : Z) | ERemove (nm : Z) | ESetMin (m : Z) | EUpdate (nm idx : Z) | EClear.
 
 Definition enum_step (e : enum) (o : enum_op) : enum :=
   match o with
   | EAdd nm idx => match enum_add e nm idx with Some e' => e' | None => e end
   | ERemove nm => match enum_remove e nm with Some e' => e' | None => e end
   | ESetMin m => enum_set_min e m
+  | EUpdate nm idx => match enum_update e nm idx with Some e' => e' | None => e end
+  | EClear => enum_clear e
   end.
 Definition enum_ok (e : enum) (o : enum_op) : bool :=
   match o with
   | EAdd nm idx => match enum_add e nm idx with Some _ => true | None => false end
   | ERemove nm => match enum_remove e nm with Some _ => true | None => false end
   | ESetMin _ => true
+  | EUpdate nm idx => match enum_update e nm idx with Some _ => true | None => false end
+  | EClear => true
   end.
 Definition enum_run (ops : list enum_op) : enum := fold_left enum_step ops enum_new.
 
